@@ -12,6 +12,8 @@ state; names and contents are hex-encoded UTF-8 / bytes ("-" = empty).
         FAULT ∈ mkTmpFile ctor copy;  BODY ∈ read raise
         ARCHIVE ∈ absent dir corrupt enc:FMT:MEMBERHEX:CONTENTHEX
      -> ok|raised seen=HEX|none tmpclean=true|false yielded=temp|name
+  decompressto NAME FAULT|- BODY ARCHIVE        (decompress with target="out/explicit.tmp")
+     -> ok|raised seen=HEX|none tmpclean=true|false yielded=target|name target=absent|present
 
 The codec parameter is instantiated by a tagging codec: `enc f m b` = tag of f, length-prefixed member name, b.
 -/
@@ -137,6 +139,31 @@ def step (line : String) : String :=
         let o := if r.2 == .ok then "ok" else "raised"
         s!"{o} target={tgt} tmpclean={tmpClean r.1} yielded={if known then "temp" else "name"}"
     | _, _, _, _ => "bad-op"
+  | ["decompressto", nm, fl, bd, ar] =>
+    -- decompress(name, target="out/explicit.tmp")
+    match unhexStr nm, dstep? fl with
+    | some name, some fault =>
+      let arch : Option (Option UFile) :=
+        if ar = "absent" then some none else if ar = "dir" then some (some .dir)
+        else if ar = "corrupt" then some (some .partialOut)
+        else if ar.startsWith "raw:" then (unhex (ar.drop 4).toString).map (fun b => some (.data b))
+        else (parseEnc ar).map (fun b => some (.data b))
+      match arch with
+      | none => "bad-op"
+      | some arch =>
+        let tgt := "out/explicit.tmp"
+        let st : St := { st0 with user := match arch with | some u => st0.user.set name u | none => st0.user }
+        let known := isFmt (fmtOfName name)
+        let raises := bd = "raise"
+        let body : Body := fun p s =>
+          let got : Option Bytes := match s.user p with | some (.data b) => some b | _ => none
+          ({ s with user := match got with | some b => s.user.set "\x00seen" (.data b) | none => s.user }, raises)
+        let r := decompressTo tagCodec name tgt fault body st
+        let seen := match r.1.user "\x00seen" with | some (.data b) => hex b | _ => "none"
+        let o := if r.2 == .ok then "ok" else "raised"
+        let t := if (r.1.user tgt).isSome then "present" else "absent"
+        s!"{o} seen={seen} tmpclean={tmpClean r.1} yielded={if known then "target" else "name"} target={t}"
+    | _, _ => "bad-op"
   | ["decompress", nm, fl, bd, ar] =>
     match unhexStr nm, dstep? fl with
     | some name, some fault =>
